@@ -64,3 +64,166 @@ def _g_blur(rng, tier):
 
 CONTRACTS[M2 + "blurring_mask_2d_from"].gen = _g_blur
 CONTRACTS[M2 + "blurring_mask_2d_from"].nontrivial = lambda mask_2d, kernel_shape_native: 0 < mask_2d.sum() < mask_2d.size
+
+
+# ----------------------------------------------------------------------------- edge and border sets
+from pyvc.contract import macro
+
+# "has a masked pixel among its eight in-array neighbours" (the pixel itself is unmasked wherever this is used)
+macro("c10_isedge", ["M", "H", "W", "y", "x"],
+      "exists((y - 1 if y - 1 > 0 else 0), (y + 2 if y + 2 < H else H), lambda a:"
+      " exists((x - 1 if x - 1 > 0 else 0), (x + 2 if x + 2 < W else W), lambda b: M[a, b]))",
+      opaque=(["bool[2]", "int", "int", "int", "int"], "bool"))
+# the "not an edge pixel" mask: its unmasked pixels are exactly the edge pixels, so cnt2 over it ranks the edge set
+_E = "arr2(H, W, lambda a, b: mask_2d[a, b] or not c10_isedge(mask_2d, H, W, a, b))"
+
+contract(
+    M2 + "check_if_edge_pixel", props=["C10"],
+    types={"mask_2d": "bool[2]", "y": "int", "x": "int"}, returns="bool", let=HW, reveal=["c10_isedge"],
+    requires=["0 <= y", "y < H", "0 <= x", "x < W"],
+    ensures=["result == c10_isedge(mask_2d, H, W, y, x)"],
+    loops={
+        0: {"inv": ["forall((y - 1 if y - 1 > 0 else 0), y1, lambda a: forall((x - 1 if x - 1 > 0 else 0), (x + 2 if x + 2 < W else W),"
+                    " lambda b: not mask_2d[a, b]))"]},
+        1: {"inv": ["forall((y - 1 if y - 1 > 0 else 0), y1, lambda a: forall((x - 1 if x - 1 > 0 else 0), (x + 2 if x + 2 < W else W),"
+                    " lambda b: not mask_2d[a, b]))",
+                    "forall((x - 1 if x - 1 > 0 else 0), x1, lambda b: not mask_2d[y1, b])"]},
+    },
+    sentence={"c10_isedge": "edge test: some in-array neighbour (8-connectivity) is masked"},
+)
+
+contract(
+    M2 + "total_edge_pixels_from", props=["C10"],
+    types={"mask_2d": "bool[2]"}, returns="int", let={**HW, "E": _E},
+    ensures=["result == total(E)"],
+    loops={0: {"inv": ["edge_pixel_total == cnt2(E, y, 0)"]},
+           1: {"inv": ["edge_pixel_total == cnt2(E, y, x)"]}},
+)
+
+_EDGE_DONE_ROWS = ("forall(0, y, lambda yy: forall(0, W, lambda xx: implies(not E[yy, xx],"
+                   " edge_pixels[cnt2(E, yy, xx)] == cnt2(mask_2d, yy, xx))))")
+_EDGE_INV = "forall(0, edge_index, lambda i: edge_pixels[i] == cnt2(mask_2d, pixy(E, i), pixx(E, i)))"
+contract(
+    M2 + "edge_1d_indexes_from", props=["C10"],
+    types={"mask_2d": "bool[2]"}, returns="real[1]", let={**HW, "E": _E},
+    ensures=[
+        "result.shape[0] == total(E)",
+        # the edge list holds, in slim order, the slim index of every unmasked pixel with a masked in-array neighbour
+        "forall(0, H, lambda y: forall(0, W, lambda x: implies(not mask_2d[y, x] and c10_isedge(mask_2d, H, W, y, x),"
+        " result[cnt2(E, y, x)] == cnt2(mask_2d, y, x))))",
+        # ... and nothing else: entry i is the slim index of the i-th edge pixel in row-major order
+        "forall(0, total(E), lambda i: result[i] == cnt2(mask_2d, pixy(E, i), pixx(E, i)), pat=result[i])",
+    ],
+    loops={
+        0: {"inv": ["edge_index == cnt2(E, y, 0)", "regular_index == cnt2(mask_2d, y, 0)", _EDGE_DONE_ROWS, _EDGE_INV]},
+        1: {"inv": ["edge_index == cnt2(E, y, x)", "regular_index == cnt2(mask_2d, y, x)", _EDGE_DONE_ROWS, _EDGE_INV,
+                    "forall(0, x, lambda xx: implies(not E[y, xx], edge_pixels[cnt2(E, y, xx)] == cnt2(mask_2d, y, xx)))"]},
+    },
+    sentence={"forall": "the edge set contains every unmasked pixel that has a masked pixel among its eight in-array neighbours "
+                        "(and no pixel whose eight neighbours all exist and are unmasked), listed by slim index in slim order"},
+)
+
+
+def _g_m(rng, tier):
+    for m in gens.all_masks(gens.budget(tier, 9, 12)):
+        yield {"mask_2d": m}
+    for _ in range(gens.budget(tier, 80, 1500)):
+        yield {"mask_2d": gens.random_mask(rng, 7, 7)}
+
+
+def _g_pix(rng, tier):
+    for kw in _g_m(rng, tier):
+        m = kw["mask_2d"]
+        for y in range(m.shape[0]):
+            for x in range(m.shape[1]):
+                yield {"mask_2d": m, "y": y, "x": x}
+
+
+CONTRACTS[M2 + "check_if_edge_pixel"].gen = _g_pix
+CONTRACTS[M2 + "total_edge_pixels_from"].gen = _g_m
+CONTRACTS[M2 + "edge_1d_indexes_from"].gen = _g_m
+
+
+# ----------------------------------------------------------------------------- border set
+# a straight walk from (y,x) to the array boundary, in at least one of the four axis directions, meets only masked pixels
+macro("c10_isborder", ["M", "H", "W", "y", "x"],
+      "forall(0, y, lambda r: M[r, x]) or forall(x + 1, W, lambda c: M[y, c])"
+      " or forall(y + 1, H, lambda r: M[r, x]) or forall(0, x, lambda c: M[y, c])",
+      opaque=(["bool[2]", "int", "int", "int", "int"], "bool"))
+
+_NTS = ["native_to_slim.shape[0] == total(mask_2d)", "native_to_slim.shape[1] == 2",
+        "forall(0, total(mask_2d), lambda k: native_to_slim[k, 0] == pixy(mask_2d, k) and native_to_slim[k, 1] == pixx(mask_2d, k))"]
+
+contract(
+    M2 + "check_if_border_pixel", props=["C10"],
+    types={"mask_2d": "bool[2]", "edge_pixel_slim": "real", "native_to_slim": "real[2]"}, returns="bool",
+    let={**HW, "k": "floor(edge_pixel_slim)"}, reveal=["c10_isborder"],
+    requires=["isint(edge_pixel_slim)", "0 <= k", "k < total(mask_2d)"] + _NTS,
+    ensures=["result == c10_isborder(mask_2d, H, W, pixy(mask_2d, k), pixx(mask_2d, k))"],
+    ghost_at={1: [{"rebind": {"edge_pixel_index": "k"}}],
+              3: [{"rebind": {"y": "pixy(mask_2d, k)", "x": "pixx(mask_2d, k)"}}]},
+    sentence={"c10_isborder": "border test: a straight walk to the array boundary in one of the four axis directions meets only masked pixels"},
+)
+
+# the i-th entry of an edge list (a slim index stored as a float) and its border flag
+_EDGES_OK = ("forall(0, edge_pixels.shape[0], lambda i: isint(edge_pixels[i])"
+             " and 0 <= floor(edge_pixels[i]) and floor(edge_pixels[i]) < total(mask_2d))")
+_B1 = ("arr1(edge_pixels.shape[0], lambda i: not c10_isborder(mask_2d, H, W,"
+       " pixy(mask_2d, floor(edge_pixels[i])), pixx(mask_2d, floor(edge_pixels[i]))))")
+
+contract(
+    M2 + "total_border_pixels_from", props=["C10"],
+    types={"mask_2d": "bool[2]", "edge_pixels": "real[1]", "native_to_slim": "real[2]"}, returns="int",
+    let={**HW, "B1": _B1}, requires=[_EDGES_OK] + _NTS,
+    ensures=["result == total1(B1)"],
+    loops={0: {"inv": ["border_pixel_total == cnt1(B1, i)"]}},
+)
+
+# the border list in terms of the mask alone: E = "not an edge pixel" mask, its i-th unmasked pixel is the i-th edge pixel
+_BM = ("arr1(total(E), lambda i: not c10_isborder(mask_2d, H, W, pixy(E, i), pixx(E, i)))")
+contract(
+    M2 + "border_slim_indexes_from", props=["C10", "C18"],
+    types={"mask_2d": "bool[2]"}, returns="real[1]", let={**HW, "E": _E, "BM": _BM},
+    ensures=[
+        "result.shape[0] == total1(BM)",
+        # exactly those edge pixels from which a straight walk to the boundary meets only masked pixels, in slim order
+        "forall(0, total(E), lambda i: implies(c10_isborder(mask_2d, H, W, pixy(E, i), pixx(E, i)),"
+        " result[cnt1(BM, i)] == cnt2(mask_2d, pixy(E, i), pixx(E, i))))",
+    ],
+    # the callee contracts speak about B1 (border flags of the entries of the local edge list); the property speaks about
+    # BM (border flags of the i-th edge pixel of the mask).  They agree pointwise, hence their rank functions agree
+    # (ghost lemma by induction), which transfers the loop invariant (stated over B1) to the postcondition (over BM).
+    ghost_at={5: [
+        "forall(0, total(E), lambda i: (" + _B1 + ")[i] == BM[i])",
+        {"induct": "n", "lo": 0, "hi": "total(E)", "stmt": "cnt1(" + _B1 + ", n) == cnt1(BM, n)"},
+    ]},
+    loops={0: {"inv": ["border_pixel_index == cnt1(" + _B1 + ", edge_pixel_index)",
+                       "forall(0, edge_pixel_index, lambda i: implies(not (" + _B1 + ")[i],"
+                       " border_pixels[cnt1(" + _B1 + ", i)] == edge_pixels[i]))"]}},
+    sentence={"forall": "the border set consists of exactly those edge pixels from which a straight walk to the array boundary in at "
+                        "least one of the four axis directions meets only masked pixels (slim indices, slim order)"},
+)
+
+
+def _g_edge_entry(rng, tier):
+    for kw in _g_m(rng, tier):
+        m = kw["mask_2d"]
+        nts = np.argwhere(~m).astype(float).reshape(-1, 2)
+        for k in range(nts.shape[0]):
+            yield {"mask_2d": m, "edge_pixel_slim": float(k), "native_to_slim": nts}
+
+
+def _g_border_tot(rng, tier):
+    for kw in _g_m(rng, tier):
+        m = kw["mask_2d"]
+        nts = np.argwhere(~m).astype(float).reshape(-1, 2)
+        n = nts.shape[0]
+        if n == 0:
+            continue
+        e = np.array(sorted(rng.sample(range(n), rng.randint(0, n))), dtype=float)
+        yield {"mask_2d": m, "edge_pixels": e, "native_to_slim": nts}
+
+
+CONTRACTS[M2 + "check_if_border_pixel"].gen = _g_edge_entry
+CONTRACTS[M2 + "total_border_pixels_from"].gen = _g_border_tot
+CONTRACTS[M2 + "border_slim_indexes_from"].gen = _g_m
